@@ -349,6 +349,27 @@ func runC10(c *eng.Ctx) {
 
 	c.Rule("LAYOUT", "index/v1.tagForwardReader{run of container i starts after the runs of all containers before it}", func() { forwardLookupTable(c) })
 	c.Rule("PASS", "index.forwardIndex.GetGroupingContext{intersection per group-by tag key}", func() { groupingIntersectsPerTagKey(c) })
+	// the condition walker combines the sets of its atoms IN PLACE (left.And(right) / left.Or(right)); every atom therefore gets a set of
+	// its own from the index, never one that is kept and handed out again
+	c.Rule("PROV", "query/operator.seriesFiltering.getSeriesIDsByExpr{every atom gets its own series set}", func() {
+		f := c.Fn("query/operator.seriesFiltering.getSeriesIDsByExpr")
+		load := c.One(f, invokeOn(".indexDB", "GetSeriesIDsByTagValueIDs"), "indexDB.GetSeriesIDsByTagValueIDs(key, values)")
+		n := 0
+		for i, r := range eng.SuccessReturns(f) {
+			v := eng.RetVal(r, 1)
+			if eng.IsNilConst(v) {
+				continue
+			}
+			n++
+			fresh := eng.OnlyFromCall(v, load.Instr.(ssa.Value))
+			c.Check(fresh, fmt.Sprintf("set-from-this-lookup[%d]", i), r, f,
+				"the series set returned for an atom is the result of THIS call's index lookup: the caller intersects / unites into it in place, a set that is kept and returned again would carry the previous combination",
+				"returns "+p.Desc(v))
+		}
+		c.Check(n >= 1, "returns-a-set", nil, f, "the atom lookup returns a series set", "")
+		w := c.Fn("query/operator.seriesFiltering.findSeriesIDsByExpr")
+		c.Check(len(p.Sites(w, eng.AnyCallTo("github.com/lindb/roaring.Bitmap.And", "github.com/lindb/roaring.Bitmap.Or"))) >= 2, "combined-in-place", nil, w, "the walker combines the atoms' sets in place", "")
+	})
 
 	c.Rule("SYMMETRY", "index{regex lookup: persisted candidates = all keys unless the expression is anchored}", func() { regexCandidates(c) })
 	c.Rule("GUARD", "index.indexKVStore.FindValuesByLike{no pattern slices out of range}", func() { likePatternSlices(c) })
@@ -736,6 +757,13 @@ func regexCandidates(c *eng.Ctx) {
 	mem := c.Fn("index.indexKVStore.findValuesByRegexp")
 	c.Check(len(p.Sites(mem, eng.AnyCallTo("regexp.Regexp.Match", "regexp.Regexp.MatchString"))) > 0 && len(eng.EarlyLoopExits(mem)) == 0, "memory-tests-every-key", nil, mem,
 		"the in-memory lookup tests every key of the bucket with rp.Match", "")
+	for i, m := range p.Sites(mem, eng.AnyCallTo("regexp.Regexp.Match", "regexp.Regexp.MatchString")) {
+		if m.Instr.Parent() != mem {
+			continue
+		}
+		everyIterationPasses(c, mem, m, fmt.Sprintf("memory-no-key-skipped[%d]", i),
+			"no key of the bucket is passed over before the match (a literal prefix of the expression is a prefix of every MATCH, not of every matching key)")
+	}
 	f := c.Fn("index/model.TrieBucket.FindValuesByRegexp")
 	its := c.Some(f, eng.AnyCallTo("github.com/lindb/lindb/pkg/trie.SuccinctTrie.NewPrefixIterator", "pkg/trie.SuccinctTrie.NewPrefixIterator", "pkg/trie.trie.NewPrefixIterator"), "tree.NewPrefixIterator(prefix)")
 	usesMatch := len(p.Sites(f, eng.AnyCallTo("regexp.Regexp.Match", "regexp.Regexp.MatchString"))) > 0
